@@ -171,7 +171,7 @@ var checks = []Check{
 	{
 		ID: "C09", Pkg: "checks/c09", Instr: append(append([]string{}, coreInstr...), "systems/raftkvs", "systems/raftkvs/bootstrap"), Env: []string{"VERIF_C09_LEVELB=1"},
 		QuickRuns: 20000, ThoroughRuns: 1000000, QuickBudgetS: 100, ThoroughBudgetS: 1500, ShrinkS: 60,
-		Rule: "eleven runs in twelve = the same level-A Raft execution as C08 (with an adaptive workload: after a leader change following an acknowledged Put the next request is usually a Get of that key; calm runs and the final-read phase make lost acknowledged writes visible); one run in twelve = level B: the shipped bootstrap of systems/raftkvs (bootstrap.NewServer/NewClient with the real relaxed mailboxes, monitors, failure detectors, election timer, CustomInChan, LocalShared variables, in a third of those runs PersistentLog/MakePersistent on an in-memory badger store) for 1/3/5 servers and 1-3 clients under the simulator's scheduler, clock and network, clients going through the real bootstrap.Client.Run (request time-outs and re-sends included), 0-2 windows in which one server is cut off from the network and optionally one server stopped; in both levels the history of client operations (invoke/return stamped with event sequence numbers; unanswered Puts pending for ever, unanswered Gets dropped) is checked with porcupine against a key-value map partitioned by key; non-trivial = at least 2 answered operations; distinct = distinct interleaving digests",
+		Rule: "three runs in four = the same level-A Raft execution as C08 (with an adaptive workload: after a leader change following an acknowledged Put the next request is usually a Get of that key; calm runs and the final-read phase make lost acknowledged writes visible); one run in four = level B: the shipped bootstrap of systems/raftkvs (bootstrap.NewServer/NewClient with the real relaxed mailboxes, monitors, failure detectors, election timer, CustomInChan, LocalShared variables, in a third of those runs PersistentLog/MakePersistent on an in-memory badger store) for 1/3/5 servers and 1-3 clients under the simulator's scheduler, clock and network, clients going through the real bootstrap.Client.Run (request time-outs and re-sends included), 0-2 windows in which one server is cut off from the network (or, in a third of the runs, every server cut off once, one after the other) and optionally one server stopped, in half of the runs a paced workload (pauses between operations) followed by final reads of every key by every client once the faults are over; in both levels the history of client operations (invoke/return stamped with event sequence numbers; unanswered Puts pending for ever, unanswered Gets dropped) is checked with porcupine against a key-value map partitioned by key; non-trivial = at least 2 answered operations; distinct = distinct interleaving digests",
 		Real: append(append([]string{}, realA...), "level B runs: systems/raftkvs/bootstrap (server.go, client.go, helper.go), raftkvs timer.go, customch.go, persistentlog.go, distsys/resources relaxed mailboxes, Monitor, SingleFailureDetector, LocalSharedManager, Persistent — real, instrumented by overlay"),
 		Stub: append(append([]string{}, stubA...), stubU...),
 		Assumptions: []string{"porcupine time-outs counted as inconclusive", "<= 18 operations per history", "the recorded finding (re-sent Puts are appended again) is attributed only to a history that becomes linearizable once every re-sent Put may take effect a second time (ghost operations); any other illegal history is reported", "level B: a re-sent request is recognised by the bootstrap client's own log line (\"client N sent timeout\"); progress at level B is not judged (counted as level_b_unfinished)"},
